@@ -341,13 +341,11 @@ class SessionModel:
         return self._listing("mlsd", arg, "2xx")
 
     def _take_rest(self, started):
-        """offsets that may apply to this transfer; updates the pending offset.  A transfer verb that is refused
-        or never gets its data connection leaves a pending offset undetermined ("either")."""
+        """offsets that may apply to this transfer.  The offset applies to the immediately following transfer
+        command only - whatever its outcome (refused, 425 or run), it is gone afterwards.  Only after an unknown
+        verb is a pending offset undetermined ("either")."""
         cands = [self.rest] + ([0] if self.rest_unknown and self.rest else [])
-        if started:
-            self.rest, self.rest_unknown = 0, False
-        elif self.rest:
-            self.rest_unknown = True
+        self.rest, self.rest_unknown = 0, False
         return cands
 
     def do_retr(self, arg):
